@@ -328,6 +328,9 @@ def epos_rules(prog, R, trimmer):
                     okc = False
                     for a in sw:
                         t = b.blocks[a].term
+                        # `match byte { MARKER => .., _ => .. }`: a switch on the byte itself with the marker among its arms
+                        if not t.discr.is_const and copy_origin(b, t.discr, du)[:2] == fo[:2] and MARKER[v] in [tv for tv, _ in t.targets]:
+                            okc = True
                         for r in roots_of(b, t.discr, du):
                             if r[0] == 'bin' and r[1].rv.j['op'] in ('Ne', 'Eq'):
                                 ops = r[1].rv.ops
